@@ -17,7 +17,7 @@ RULE = ('(1) parity: for every labelled centre of generated molecules all 24 (6)
         'the reported sign must follow permutation parity computed from inversion counts. (2) exhaustive SMILES spellings of one '
         'centre: all 24 neighbour orders x centre first/middle x @/@@ x H inside/outside the bracket x ring-closure neighbours, and all '
         '/ \\ placements around a double bond, judged by RDKit. (3) inverting one label of an in-domain centre never gives an equal '
-        'molecule; RDKit agrees the two are different. (4) labels written on non-stereogenic centres are dropped. (5) marks written by the library in every style (canonical, random, asymmetric closures, explicit H, Kekule) for labelled molecules up to 18 atoms incl. polycycles are read by RDKit as the same molecule as the spelling of an independent writer. '
+        'molecule; RDKit agrees the two are different. (4) labels written on non-stereogenic centres are dropped. (6) wedge notation: every single-wedge marking of a centre (any bond, up or down, from either allene terminal) on a generated drawing must be stored as a function of the geometric hand only. (5) marks written by the library in every style (canonical, random, asymmetric closures, explicit H, Kekule) for labelled molecules up to 18 atoms incl. polycycles are read by RDKit as the same molecule as the spelling of an independent writer. '
         'non-trivial = at least one label survives parsing; distinct by (canonical string, ordering / spelling)')
 ASSUMPTIONS = ['parity from permutation cycle structure (vf/oracles/iso.py), independent of the library translation tables',
                'RDKit is the judge of the absolute convention for SMILES marks; chython supports carbon centres only',
@@ -32,6 +32,7 @@ def shards(tier, seed):
     out += [dict(kind='spell', part=i, parts=6) for i in range(6)]
     out += [dict(kind='mirror', shard=i, n=n) for i in range(2)]
     out += [dict(kind='writer', shard=i, n=n) for i in range(4)]
+    out += [dict(kind='wedge', shard=i, n=n) for i in range(3)]
     return out
 
 
@@ -40,6 +41,10 @@ def run_shard(shard, tier, seed):
         cases = [c for i, c in enumerate(spellings()) if i % shard['parts'] == shard['part']]
         return direct_run(ID, cases, check_case)
     specs = molgen.mol_specs(max_atoms=12, corpus_w=4, curated_w=4, graph_w=5, literal_w=1, sym_w=2)
+    if shard['kind'] == 'wedge':
+        strat = st.fixed_dictionaries({'wedge': specs, 'layout': st.sampled_from(['rdkit', 'rdkit', 'clean2d']),
+                                       'seed': st.integers(0, 2 ** 31)})
+        return hyp_run(ID, strat, check_case, max_examples=shard['n'], seed=seed * 1000 + 300 + shard['shard'])
     if shard['kind'] == 'writer':
         big = molgen.mol_specs(max_atoms=18, corpus_w=6, curated_w=4, graph_w=5, literal_w=1, sym_w=2)
         strat = st.fixed_dictionaries({'writer': big, 'fmt': st.sampled_from(['', 'r', 'r', 'a', 'ar', 'rh', 'A', 'rA']),
@@ -98,7 +103,133 @@ def check_writer(case, rec):
     rec.sample('writer', dict(library=text, reference=r[0]), cap=4)
 
 
+def _det3(a, b, c):
+    return a[0] * (b[1] * c[2] - b[2] * c[1]) - a[1] * (b[0] * c[2] - b[2] * c[0]) + a[2] * (b[0] * c[1] - b[1] * c[0])
+
+
+def _spread(vectors, slack=0.35):
+    """in-plane directions are well separated and do not leave a half plane empty-handed (largest angular gap < 180 deg - slack)"""
+    import math
+    ang = sorted(math.atan2(y, x) for x, y in vectors)
+    gaps = [(ang[(i + 1) % len(ang)] - ang[i]) % (2 * math.pi) for i in range(len(ang))]
+    if len(ang) == 1:
+        return True
+    return min(gaps) > slack and max(gaps) < math.pi - (slack if len(ang) >= 3 else -math.pi)
+
+
+def check_wedge(case, rec):
+    """wedge notation: on a drawing, every way of marking ONE bond of a centre up or down describes one of two hands; the hand is
+    computed here from coordinates and wedge (triple product). the configuration the library stores must be a function of the hand
+    only - whichever bond carries the wedge, from whichever end atom of an allene (metamorphic, no convention assumed)"""
+    import random as _random
+    from chython.exceptions import NotChiral, IsChiral
+    from .c11 import layout
+    try:
+        m = molgen.build_kekule(case['wedge']).copy()
+    except molgen.Reject as e:
+        rec.count(f'generator-reject:{e}')
+        return
+    if len(m) > 40:
+        return
+    m.clean_stereo()
+    centres = [('t', n) for n in sorted(m.chiral_tetrahedrons)] + [('a', n) for n in sorted(m.chiral_allenes)]
+    if not centres:
+        rec.count('wedge:no-centre')
+        return
+    rnd = _random.Random(case['seed'])
+    try:
+        layout(m, case['layout'], rnd)
+    except Exception:
+        rec.count('wedge:layout-failed')
+        return
+    pos = {n: (round(a.x, 4), round(a.y, 4)) for n, a in m.atoms()}
+    for kind, c in centres[:4]:
+        results = []  # (wedge from, wedge to, mark, hand, stored sign for the reference environment)
+        if kind == 't':
+            env = m.stereogenic_tetrahedrons[c]
+            nbs = [x for x in m._bonds[c] if m._bonds[c][x].order != 8]
+            if any(m.atom(x).atomic_number == 1 for x in nbs) or len(nbs) != len(env):
+                continue
+            vec = {x: (pos[x][0] - pos[c][0], pos[x][1] - pos[c][1]) for x in nbs}
+            if not _spread(list(vec.values())) or any(abs(v[0]) + abs(v[1]) < .2 for v in vec.values()):
+                rec.count('wedge:layout-not-spread (not asserted)')
+                continue
+            for w in nbs:
+                for mark in (1, -1):
+                    p3 = {x: (vec[x][0], vec[x][1], float(mark) if x == w else 0.) for x in nbs}
+                    if len(env) == 4:
+                        d = _det3(*[tuple(p3[env[i]][k] - p3[env[3]][k] for k in range(3)) for i in range(3)])
+                    else:
+                        d = _det3(p3[env[0]], p3[env[1]], p3[env[2]])
+                    if abs(d) < .05:
+                        continue
+                    y = m.copy()
+                    try:
+                        y.add_wedge(c, w, mark)
+                    except (NotChiral, IsChiral):
+                        continue
+                    if y.atom(c).stereo is None:
+                        continue
+                    results.append((c, w, mark, d > 0, y._translate_tetrahedron_sign(c, env)))
+        else:
+            t1, t2 = m._stereo_allenes_terminals[c]
+            env = m.stereogenic_allenes[c]
+            a1, b1 = env[0], env[1]
+            ends = {}
+            for t, o in ((t1, t2), (t2, t1)):
+                ends[t] = [x for x in m._bonds[t] if m._bonds[t][x].order == 1]
+            if a1 not in ends[t1]:
+                t1, t2 = t2, t1
+            if a1 not in ends[t1] or b1 not in ends[t2] or any(m.atom(x).atomic_number == 1 for e in ends.values() for x in e):
+                continue
+            A, B = pos[t1], pos[t2]
+            v = (B[0] - A[0], B[1] - A[1])
+            u = (pos[a1][0] - A[0], pos[a1][1] - A[1])
+            w_ = (pos[b1][0] - B[0], pos[b1][1] - B[1])
+            cu, cw = u[0] * v[1] - u[1] * v[0], v[0] * w_[1] - v[1] * w_[0]
+            if abs(cu) < .1 or abs(cw) < .1:
+                rec.count('wedge:allene-substituent-on-the-axis (not asserted)')
+                continue
+            for t in (t1, t2):
+                for sub in ends[t]:
+                    for mark in (1, -1):
+                        if t == t1:
+                            uz = float(mark) if sub == a1 else -float(mark)
+                            d = uz * cw          # u . (v x w), w in plane
+                        else:
+                            wz = float(mark) if sub == b1 else -float(mark)
+                            d = wz * cu          # u in plane
+                        y = m.copy()
+                        try:
+                            y.add_wedge(t, sub, mark)
+                        except (NotChiral, IsChiral):
+                            continue
+                        if y.atom(c).stereo is None:
+                            continue
+                        results.append((t, sub, mark, d > 0, y._translate_allene_sign(c, a1, b1)))
+        if len(results) < 2:
+            continue
+        rec.count(f'wedge:{"tetrahedron" if kind == "t" else "allene"}-centres')
+        rec.nt((str(m), c, case['layout']))
+        rel = {hand == sign for *_, hand, sign in results}
+        if len(rel) != 1:
+            a = next(r for r in results if (r[3] == r[4]) != (results[0][3] == results[0][4]))
+            rec.fail('wedge-hand', f'{str(m)!r} centre {c} ({case["layout"]} layout): wedge {results[0][0]}->{results[0][1]} mark '
+                                   f'{results[0][2]} and wedge {a[0]}->{a[1]} mark {a[2]} describe '
+                                   f'{"the same hand" if results[0][3] == a[3] else "opposite hands"} but are stored as '
+                                   f'{"opposite" if (results[0][4] != a[4]) == (results[0][3] == a[3]) else "the same"} configuration',
+                     sig='allene' if kind == 'a' else 'tetrahedron')
+            return
+        if len({r[2] for r in results}) == 2 and any(r1[:2] == r2[:2] and r1[2] != r2[2] and r1[4] == r2[4]
+                                                   for r1 in results for r2 in results):
+            rec.fail('wedge-hand', f'{str(m)!r} centre {c}: up and down wedge on the same bond give the same configuration',
+                     sig='up-down')
+            return
+
+
 def check_case(case, rec):
+    if 'wedge' in case:
+        return check_wedge(case, rec)
     if 'writer' in case:
         return check_writer(case, rec)
     if 'parity' in case:
